@@ -271,4 +271,40 @@ def r3(ctx):
               "_state['categories'] = categories expected")
 
 
-RULES = [("C09.R1", r1), ("C09.R2", r2), ("C09.R3", r3)]
+
+def r4(ctx):
+    """Every categorical encoder hands encode_contrasts the factor's own recorded state and the spec: levels are recorded at fit time and pinned on reuse."""
+    P = ctx.project
+    n = 0
+    for c in P.subclasses(MAT):
+        m = c.methods.get("_encode_categorical")
+        if m is None:
+            continue
+        for call in ast.walk(m.node):
+            if isinstance(call, ast.Call) and dotted(call.func) == "encode_contrasts":
+                n += 1
+                ctx.look()
+                kws = {k.arg: norm(k.value) for k in call.keywords if k.arg}
+                ok = kws.get("_state") == "encoder_state" and kws.get("_spec") == "spec" and kws.get("_metadata") == "metadata" and kws.get("reduced_rank") == "False"
+                ctx.check(ok, "C09.R4", f"{c.qualname.split('.')[-1]}._encode_categorical threads encoder_state / spec / metadata into encode_contrasts", m.module.line(call),
+                          ctx.construct(m, text="encode_contrasts kwargs"),
+                          f"encode_contrasts is called with {kws}: without `_state=encoder_state` the levels are never recorded for this materializer, so reuse on data "
+                          f"with other levels reshapes or mis-fills the columns without a warning")
+    ctx.floor("C09.R4", n, 2, "encode_contrasts calls in materializers")
+    enc = P.func("formulaic.transforms.contrasts.C").locals_named("encoder")
+    calls = [c for c in ast.walk(enc.node) if isinstance(c, ast.Call) and dotted(c.func) == "encode_contrasts"]
+    kws = {k.arg: norm(k.value) for k in calls[0].keywords if k.arg} if calls else {}
+    ok = kws.get("_state") == "encoder_state" and kws.get("_spec") == "model_spec" and kws.get("levels") == "levels" and kws.get("contrasts") == "contrasts" and kws.get("reduced_rank") == "reduced_rank"
+    ctx.check(ok, "C09.R4", "C().encoder threads its encoder_state and the spec into encode_contrasts", enc.where, ctx.construct(enc, text="encode_contrasts kwargs"),
+              f"encode_contrasts is called with {kws}")
+    # the recorded (kind, state) entry is written for every kind, unconditionally (numerical factors too: their kind is what the guard compares)
+    en = P.func(MAT + "._encode_evaled_factor")
+    rec = [s_ for s_ in ast.walk(en.node) if isinstance(s_, ast.Assign) and norm(s_.targets[0]) == "spec.encoder_state[factor.expr]" and norm(s_.value) == "(factor.metadata.kind, encoder_state)"]
+    ok = len(rec) == 1 and not isinstance(P.parent(rec[0]), ast.If) or (len(rec) == 1 and isinstance(P.parent(rec[0]), ast.If) and "factor.expr in self.encoded_cache" in norm(P.parent(rec[0]).test))
+    par = P.parent(rec[0]) if rec else None
+    ok = len(rec) == 1 and not (isinstance(par, ast.If) and rec[0] in par.body and "encoder_state" in norm(par.test))
+    ctx.check(ok, "C09.R4", "the kind of every encoded factor is recorded unconditionally (also when its encoder kept no state)", en.where, ctx.construct(en, text="record unconditional"),
+              "recording only when the state dict is non-empty drops the kind of numerical factors: the kind guard can then never fire for them")
+
+
+RULES = [("C09.R1", r1), ("C09.R2", r2), ("C09.R3", r3), ("C09.R4", r4)]
